@@ -4,12 +4,18 @@ import re
 
 import vlib
 
-RULE = ("(1) spec on the real engine: operations from the fedlab operation generator over three fixed federation "
-        "configurations (mono: one subgraph with lists, a list of lists, an interface and a union; entity: User split "
-        "over two subgraphs with a split value type; fed: accounts/reviews/products entity chains through lists), @defer "
+RULE = ("(1) spec on the real engine: operations from the fedlab operation generator over four fixed federation "
+        "configurations (mono: one subgraph with lists, an interface and a union; grid: mono plus a list of lists; entity: User split "
+        "over two subgraphs with a split value type; fed: accounts/reviews/products entity chains through lists) drawn from the feature "
+        "space of the ordinary operations (aliases, named and inline fragments, type conditions, __typename, duplicated fields, "
+        "@skip/@include with literals and variables, depth up to 5), then an alias pass (none / list fields and their ancestors / any "
+        "field / every composite field; one fresh alias per response position so merged fields still merge), @defer "
         "put on existing inline fragments / fragment spreads and on new anonymous / typed / named wrappers around "
         "random subsets of selection sets at every depth (nested, sibling, in lists, under abstract types, around "
-        "entity boundaries; label, if:true, if:false, if:$var), a seeded universe per operation (nulls, failing "
+        "entity boundaries; label, if:true, if:false, if:$var), and in 2/3 of the operations one more wrapper forced at a selection "
+        "set of a placement class chosen per operation (directly on list items / one or more object levels below list items / below "
+        "two list levels / under a narrowing type condition / under a type condition and below list items; the base operation is "
+        "redrawn until it offers the class); a seeded universe per operation (nulls, failing "
         "resolvers on nullable positions, 0-4 extra nulls / failures on NON-NULL positions), and per operation up to "
         "K completion orders of the deferred subgraph requests driven by a gate in the RoundTripper (first-blocked, "
         "all-at-once, DFS enumeration when few groups, seeded random otherwise).  (2) correspondence: random response "
@@ -17,7 +23,10 @@ RULE = ("(1) spec on the real engine: operations from the fedlab operation gener
         "sprinkled at random: malformed stream), descriptors, 1-2 payloads (well-typed, then 0-5 mutations), data "
         "given whole to the primary fetch or sliced per defer layer, run through the real postprocess "
         "(extractDeferFetches, buildDeferTree) and the real Resolver.ResolveGraphQLDeferResponse under 1-3 seeded "
-        "release orders.  A case is distinct by the hash of its line; non-trivial when at least two defer ids are "
+        "release orders.  (3) plan level: for every generated operation the ancestor chain (alias, field name, type condition) of the "
+        "selection set in which each defer id is first met, read off the normalised document by a walk of the harness, the supergraph "
+        "as the collector reads it, and the DeferDescriptors of the real planner: the model's defer_path against the descriptor path "
+        "(corr:C10/descpath) and the extracted checker desc_path_ok_b on the descriptor (descriptor_path).  A case is distinct by the hash of its line; non-trivial when at least two defer ids are "
         "announced or a nested id is announced by a later frame (spec) / the plan has at least two descriptors (corr).")
 
 KEYS = {
@@ -25,32 +34,65 @@ KEYS = {
         "two sibling (not nested) @defer fragments select the same object field with different sub-selections: the merged field keeps one defer id and the other fragment's sub-fields are fetched but never delivered",
     "defer-under-typed-list-dropped":
         "a @defer below a list field that was selected under a type condition on an abstract type is never announced nor delivered (deferInfoCollector.outermostListFieldIndex gives up, the descriptor path runs through the list and the anchor reads as dead)",
+    "defer-merged-mount-wrong-anchor":
+        "a @defer fragment whose top-level fields are all also selected outside the fragment (merged into the primary response) and whose own fields sit in two branches below: the descriptor path is that of the first deeper selection set, the items of the other branch carry a subPath relative to the true mount and address nothing",
     "defer-planner-empty-selection":
-        "planning fails with 'selection set on path ... is empty' only when @defer is present (deferred entity field whose only non-deferred sibling is nested deferred)",
+        "planning fails with 'selection set on path ... is empty' only when @defer is present (a composite field of a type served by two subgraphs whose merged selection set has direct children in two different active @defer fragments)",
 }
 
 
 def classify(case, detail):
     # the renderer / validation findings (null data announcing pending, silent completion, failed parent
     # announcing children, nested lists, label uniqueness) were repaired (work/c10_fix_*.patch, fixed: lines
-    # in KNOWN_FINDINGS.txt): their corpus cases are passing regressions and have no mapping any more
+    # in KNOWN_FINDINGS.txt): their corpus cases are passing regressions and have no mapping any more.
+    # Each remaining key is recognised STRUCTURALLY on the operation by the harness (c10lab/diag.go: the tag in
+    # [diag=...]) or by the extracted model (driver: [quirk=...]), never by the wording of the failure alone, so
+    # that a new failure with the same symptom (a member missing, a planning error) stays unclassified.
     d = detail
     if d.startswith("exec_error"):
-        if "selection set on path" in d and "is empty" in d:
+        m = re.search(r"\[diag=([\w+-]*)\]", d)
+        tags = m.group(1).split("+") if m else []
+        if "selection set on path" in d and "is empty" in d and "split-defer-scopes" in tags:
             return "defer-planner-empty-selection"
         return None
+    if d.startswith("descriptor_path"):
+        # plan level: the DeferDescriptor path is not cut at the outermost list; known only when the extracted
+        # model reproduces the path and attributes it to the un-narrowed lookup (static_gives_up)
+        if "[quirk=typed-list]" in d:
+            return "defer-under-typed-list-dropped"
+        return None
+    if d.startswith("descriptor_anchor"):
+        # plan level: the fields of one defer surface in several selection sets (its own top-level fields were
+        # merged away) and the descriptor keeps the path of the first; known only when the model reproduces it
+        if "[quirk=first-occurrence]" in d:
+            return "defer-merged-mount-wrong-anchor"
+        return None
+    if d.startswith("reconstruct") and "addresses nothing in the data delivered so far" in d:
+        # end to end: the pending path is one of the anchors the plan-level check found inconsistent
+        if "diag=anchor-first-occurrence]" in d:
+            return "defer-merged-mount-wrong-anchor"
+        return None
     if d.startswith("reconstruct"):
-        m = re.search(r"\[d0=(\w+) silent=(\d+) failed=(\d+) monoerr=(\d+) diag=([\w-]*)\]", d)
+        m = re.search(r"\[d0=(\w+) silent=(\d+) failed=(\d+) monoerr=(\d+) diag=([\w+-]*)\]", d)
         if not m:
             return None
         d0, silent, failed, monoerr, diag = m.group(1), int(m.group(2)), int(m.group(3)), int(m.group(4)), m.group(5)
-        if d0 == "null" or diag == "nested-list":
+        tags = diag.split("+") if diag else []
+        if d0 == "null" or "nested-list" in tags:
             return None
-        if diag == "typed-list" and "missing in the reconstruction" in d:
+        if "typed-list" in tags and monoerr > 0 and ": null without @defer, " in d:
+            # a field of the dropped fragment fails in the one-shot execution and nulls this position there
             return "defer-under-typed-list-dropped"
+        if "missing in the reconstruction" not in d:
+            return None
+        if "typed-list" in tags:
+            return "defer-under-typed-list-dropped"
+        if "anchor-first-occurrence" in tags:
+            # the member belongs to a defer cancelled by a dead ancestor anchor that lies below that ancestor's mount
+            return "defer-merged-mount-wrong-anchor"
         # the losing fragment of a merged field may be left without any field: it is then completed with an
-        # empty incremental list; at least two @defer are needed for a merge
-        if diag == "" and ("missing in the reconstruction" in d) and case.count("@defer") >= 2:
+        # empty incremental list
+        if "merged" in tags:
             return "defer-merged-field-lost"
         return None
     return None
@@ -68,8 +110,13 @@ def run(chk):
         "the model renders every batch on the data after all fetches (a group's fetch is a no-op on the data); slices per defer layer "
         "are exercised on the Go side only",
         "subgraph errors, authorization, custom field renderers, extensions, rate limiting and hard fetch errors (ResolveDeferError) are outside the model",
-        "the planner / normaliser (astnormalization defer passes, defer_info_collector, path builder) are not modelled: they are covered "
-        "by the direct spec checks on the engine only; defer_plan_wf states what they are assumed to produce",
+        "of the planner, deferInfoCollector.deferPath / outermostListFieldIndex (descriptor path from the ancestor chain, list-ness from the "
+        "schema field by name) is modelled (coq/C10/DescPath.v) and tied by comparing the model's path with the real DeferDescriptors of "
+        "every generated operation; which selection set a defer id is attributed to (first direct field child carrying the id, document "
+        "order) is re-implemented in the harness (c10lab/desc.go chainsOf), not modelled; the rest of the planner / normaliser "
+        "(astnormalization defer passes, path builder) is not modelled: covered by the direct spec checks on the engine only; "
+        "defer_plan_wf states what they are assumed to produce",
+        "known findings are recognised structurally on the operation by harness code (c10lab/diag.go) at the response position of the failure",
         "reconstruction is proved layer by layer (reconstruct_initial / reconstruct_layer / reconstruct_total) for the straight-line renderer of Spec.v section 4 "
         "(c_initial / c_batch / r_items), which is tied to the implementation and to the full model by the frame correspondence on every strict_clean case "
         "(corr:C10/clean) -- not by a Coq proof; NOT mechanised: that member-order differences left by earlier layers do not affect later merges (sequential "
@@ -100,23 +147,37 @@ def run(chk):
     b = vlib.run_batch(chk, "%s witness -out {out}" % exe, model, "witness")
     if b:
         vlib.digest_batch(chk, b[0], b[1], classify, state)
-    n_spec, orders, allle = (100, 6, 3) if quick else (5000, 20, 4)
+    n_spec, orders, allle = (300, 6, 3) if quick else (5000, 20, 4)
     n_corr = 1500 if quick else 60000
     workers = 8
     rep = os.path.join(chk.work, "spec.report")
-    b = vlib.run_batch(chk, "%s spec -seed %d -n %d -orders %d -all %d -workers %d -report %s -out {out}" % (
-        exe, 100 + chk.seed, n_spec, orders, allle, workers, rep), model, "spec", timeout=7000)
+    gdist = os.path.join(chk.work, "spec.dist")
+    b = vlib.run_batch(chk, "%s spec -seed %d -n %d -orders %d -all %d -workers %d -report %s -dist %s -out {out}" % (
+        exe, 100 + chk.seed, n_spec, orders, allle, workers, rep, gdist), model, "spec", timeout=7000)
     if b:
         vlib.digest_batch(chk, b[0], b[1], classify, state)
         samples += [c[:1200] for c in b[0][:2]]
         nd = {}
         for c in b[0]:
+            if not c.startswith("(c10spec"):
+                continue
             m = re.search(r"\(ndefer (\d+)\)", c)
             k = "announced=%s" % (m.group(1) if m else "?")
             nd[k] = nd.get(k, 0) + 1
         dist["spec_runs_by_announced_ids"] = nd
-        dist["spec_runs"] = len(b[0])
+        dist["spec_runs"] = sum(1 for c in b[0] if c.startswith("(c10spec"))
         dist["spec_runs_with_failed_clause"] = sum(1 for c in b[0] if "(go (" in c)
+        dist["descriptor_cases"] = sum(1 for c in b[0] if c.startswith("(c10desc"))
+        dist["descriptor_cases_with_aliased_ancestor"] = sum(1 for c in b[0] if c.startswith("(c10desc") and c.endswith("(nt t))"))
+        try:
+            gen = {}
+            for tok in open(gdist).read().split():
+                if tok.startswith("gen.") and "=" in tok:
+                    k, v = tok[4:].rsplit("=", 1)
+                    gen[k] = int(v)
+            dist["generator"] = gen
+        except Exception:
+            pass
     b = vlib.run_batch(chk, "%s corr -seed %d -n %d -out {out}" % (exe, 7 + chk.seed, n_corr), model, "corr", timeout=7000)
     if b:
         vlib.digest_batch(chk, b[0], b[1], classify, state)
